@@ -29,6 +29,11 @@ pub enum StallPos {
     PartialSessionId,
     PreambleThenSilence,
     AcceptedUnread,
+    /// bidi, server under test: a complete further CONNECT request, left open (the first one
+    /// waits in the session hand-off queue nobody drains any more, later ones are refused)
+    ExtraRequest,
+    /// bidi, server under test: the first half of such a request's HEADERS frame
+    PartialRequest,
 }
 
 #[derive(Serialize, Deserialize, Clone, Debug)]
@@ -86,7 +91,12 @@ pub fn gen_plan(seed: u64, index: usize, _tier: Tier) -> Plan {
             StallPos::AcceptedUnread,
         ]
     };
+    let requests_pm = if server_under_test && rng.chance_pm(300) { 400 } else { 0 };
     for _ in 0..nstalled {
+        if rng.chance_pm(requests_pm) {
+            ops.push(Op::Stalled { bidi: true, pos: if rng.chance_pm(700) { StallPos::ExtraRequest } else { StallPos::PartialRequest }, sid_len: 2 });
+            continue;
+        }
         ops.push(Op::Stalled {
             bidi: if same_kind { kind0 } else { rng.coin() },
             pos: rng.pick(&allowed).clone(),
@@ -280,6 +290,11 @@ async fn drive_raw(
                         b.extend_from_slice(&vec![0xEE; unread_each]);
                         b
                     }
+                    StallPos::ExtraRequest | StallPos::PartialRequest if plan.server_under_test => {
+                        let f = rc::headers_frame(&rc::connect_request_fields("10.0.0.1:4433", "/c07-extra"), rc::EncStyle::PlainLiteral);
+                        if matches!(pos, StallPos::ExtraRequest) { f } else { f[..f.len() / 2].to_vec() }
+                    }
+                    StallPos::ExtraRequest | StallPos::PartialRequest => vec![],
                 };
                 if *bidi {
                     let (mut s, r) = conn.open_bi().await.map_err(|e| format!("raw open_bi: {e:?}"))?;
@@ -574,7 +589,7 @@ pub fn def() -> PropertyDef {
     PropertyDef {
         id: "C07",
         scenarios: vec![Box::new(Typed(C07Raw))],
-        rule: "Each run: a scripted raw QUIC peer (client role against the real server on even indexes, server role against the real client on odd ones) opens 1-40 stalled streams (uni/bidi; no byte, first byte of the 2-byte type, type without session id, first byte of a 2/4/8-byte session id, complete preamble then silence, complete preamble plus unread data) interleaved in generated order with 1-5 healthy WebTransport streams (tagged payloads 0..5000 B), datagrams, quiescence points and sleeps; then datagrams on a quiet network and a close capsule. The application keeps accepting. Oracle (bounded liveness, no faults): every healthy stream accepted and read byte-exact within 30 s simulated, every late datagram received, all three pending calls report ApplicationClosed with the capsule's code within 30 s. Non-trivial = at least one stalled and one healthy stream in the run; distinct = distinct plan hashes.",
+        rule: "Each run: a scripted raw QUIC peer (client role against the real server on even indexes, server role against the real client on odd ones) opens 1-40 stalled streams (uni/bidi; no byte, first byte of the 2-byte type, type without session id, first byte of a 2/4/8-byte session id, complete preamble then silence, complete preamble plus unread data; against the server also further complete or half-written CONNECT requests left open) interleaved in generated order with 1-5 healthy WebTransport streams (tagged payloads 0..5000 B), datagrams, quiescence points and sleeps; then datagrams on a quiet network and a close capsule. The application keeps accepting. Oracle (bounded liveness, no faults): every healthy stream accepted and read byte-exact within 30 s simulated, every late datagram received, all three pending calls report ApplicationClosed with the capsule's code within 30 s. Non-trivial = at least one stalled and one healthy stream in the run; distinct = distinct plan hashes.",
         assumptions: vec![
             "bounded liveness is judged on a fault-free simulated network after the script has finished",
             "the raw peer and reference codec are harness code (validated against RFC worked examples at start-up)",
